@@ -219,21 +219,30 @@ theorem dyEq_tflite (m : Nat) (e : Int) (h2 : m < 2 ^ 53) :
 
 theorem shl_32767 : ((32767 : Int) <<< (16 : Nat)) = 2147418112 := by decide
 
-/-- closed form of `reduced_quantise_scale` whenever `quantise_scale` is inside its own guard -/
+/-- closed form of `reduced_quantise_scale` for `2^-33 ≤ x < 2^15` (reduced shift in `[0, 47]`) -/
 theorem reduced_in (m : Nat) (e : Int) (h1 : 2 ^ 52 ≤ m) (h2 : m < 2 ^ 53)
-    (hlo : -85 ≤ e) (hhi : e ≤ -22) :
+    (hlo : -85 ≤ e) (hhi : e ≤ -38) :
     reducedQuantiseScale (.fin false m e) =
       .ok ((if (sigQ31 m : Int) < 2147418112 then ((sigQ31 m : Int) + 2 ^ 15) / 2 ^ 16 else 32767),
            -e - 38) := by
   unfold reducedQuantiseScale
-  rw [quantiseScale_norm m e h1 h2, quantiseNorm_in m e hlo hhi]
+  rw [quantiseScale_norm m e h1 h2, quantiseNorm_in m e hlo (by omega)]
   simp only [Int.shiftRight_eq_div_pow]
   rw [if_neg (by omega)]
   congr 2
   omega
 
-/-- outside the guard `quantise_scale` answers `(0, 16)`, which *passes* the (repeated) guard of
-    `reduced_quantise_scale`: the result is `(0, 0)` -/
+/-- `2^15 ≤ x < 2^31`: the reduced shift would be negative, the guard answers `(0, 16)` -/
+theorem reduced_mid (m : Nat) (e : Int) (h1 : 2 ^ 52 ≤ m) (h2 : m < 2 ^ 53)
+    (hlo : -37 ≤ e) (hhi : e ≤ -22) :
+    reducedQuantiseScale (.fin false m e) = .ok (0, 16) := by
+  unfold reducedQuantiseScale
+  rw [quantiseScale_norm m e h1 h2, quantiseNorm_in m e (by omega) hhi]
+  simp only []
+  rw [if_pos (by omega)]
+
+/-- outside the full range `quantise_scale` answers `(0, 16)`, whose reduced shift 0 passes the
+    guard: the result is `(0, 0)` -/
 theorem reduced_out (m : Nat) (e : Int) (h1 : 2 ^ 52 ≤ m) (h2 : m < 2 ^ 53)
     (h : ¬ (-85 ≤ e ∧ e ≤ -22)) :
     reducedQuantiseScale (.fin false m e) = .ok (0, 0) := by
